@@ -206,10 +206,18 @@ func (c *Ctx) polar(t *Term, pos bool) *Term {
 // terms that occur in fs (a one-round, engine-side E-matching that makes the common
 // "invariant at the current index" step independent of the solvers' trigger heuristics).
 func (c *Ctx) instantiate(fs []*Term) []*Term {
-	// candidate ground index terms, per sort
+	// candidate ground index terms, per sort; and per (base) array they index
 	cands := map[*Sort][]*Term{}
+	byArr := map[int][]*Term{}
 	seenC := map[int]bool{}
+	seenA := map[[2]int]bool{}
 	seen := map[int]bool{}
+	base := func(a *Term) *Term {
+		for a.op == "store" {
+			a = a.args[0]
+		}
+		return a
+	}
 	var collect func(t *Term)
 	collect = func(t *Term) {
 		if seen[t.id] {
@@ -217,13 +225,20 @@ func (c *Ctx) instantiate(fs []*Term) []*Term {
 		}
 		seen[t.id] = true
 		if t.op == "select" {
+			arr := base(t.args[0])
 			var add func(idx *Term, depth int)
 			add = func(idx *Term, depth int) {
-				if idx.hasBound || seenC[idx.id] || !(idx.sort == IntSort || idx.sort.K == SBV) || idx.IsNum() {
+				if idx.hasBound || !(idx.sort == IntSort || idx.sort.K == SBV) || idx.IsNum() {
 					return
 				}
-				seenC[idx.id] = true
-				cands[idx.sort] = append(cands[idx.sort], idx)
+				if !arr.hasBound && !seenA[[2]int{arr.id, idx.id}] {
+					seenA[[2]int{arr.id, idx.id}] = true
+					byArr[arr.id] = append(byArr[arr.id], idx)
+				}
+				if !seenC[idx.id] {
+					seenC[idx.id] = true
+					cands[idx.sort] = append(cands[idx.sort], idx)
+				}
 				// off+i: the quantified index is usually i, not the absolute element position
 				if (idx.op == "+" || idx.op == "bvadd") && depth < 2 {
 					for _, a := range idx.args {
@@ -261,17 +276,55 @@ func (c *Ctx) instantiate(fs []*Term) []*Term {
 	n := 0
 	for _, q := range foralls {
 		bv := q.bvars[0]
-		cs := cands[bv.sort]
-		// also try index+1 / index-1 neighbours that already occur as terms
-		for i, t := range cs {
-			if i >= 24 || n >= 300 {
-				break
+		// arrays the body reads at a bound index: their other indices come first
+		var pri []*Term
+		priSeen := map[int]bool{}
+		seenB := map[int]bool{}
+		var walk func(t *Term)
+		walk = func(t *Term) {
+			if seenB[t.id] || !t.hasBound {
+				return
 			}
+			seenB[t.id] = true
+			if t.op == "select" && t.args[1].hasBound {
+				arr := base(t.args[0])
+				if !arr.hasBound {
+					for _, idx := range byArr[arr.id] {
+						if idx.sort == bv.sort && !priSeen[idx.id] {
+							priSeen[idx.id] = true
+							pri = append(pri, idx)
+						}
+					}
+				}
+			}
+			for _, a := range t.args {
+				walk(a)
+			}
+		}
+		walk(q.args[0])
+		emit := func(t *Term) {
 			inst := c.Subst(q.args[0], bv, t)
 			if !inst.IsTrue() {
 				out = append(out, inst)
 				n++
 			}
+		}
+		for i, t := range pri {
+			if i >= 40 || n >= 400 {
+				break
+			}
+			emit(t)
+		}
+		k := 0
+		for _, t := range cands[bv.sort] {
+			if k >= 24 || n >= 400 {
+				break
+			}
+			if priSeen[t.id] {
+				continue
+			}
+			k++
+			emit(t)
 		}
 	}
 	return out
